@@ -70,6 +70,8 @@ def c03(tier: str) -> list[dict[str, Any]]:
         plan("G2 2 workers, max_tries=2", trav.menu("G2", params={"max_tries": "2"}, label="G2-tries2"), m, K=1, statuses=["PASS", "FAIL"], max_nonpass=2),
         plan("G3 per-worker scope (swarm removed from pool_scope)", trav.menu("G3", params={"pool_scope": "own cluster shared"}, label="G3-noswarm"), m, K=1, statuses=["PASS", "FAIL"], max_nonpass=1, pool_fixed=DEEP),
         plan("G6 per-swarm scope (cluster removed, remote spawner)", trav.menu("G6b", params={"pool_scope": "own swarm shared"}, label="G6b-nocluster"), m, K=1, statuses=["PASS"], pool_bits="shared", pool_states=["customize"], pool_fixed={"install": ["shared"]}),
+        plan("virtual time: G1 2 workers, durations symbolic below test_timeout=1", trav.menu("G1", params={"test_timeout": "1"}, label="G1-timed"), m, timed=True, statuses=["PASS"], pool_fixed={"install": ["shared"]},
+             bounds={"time": "every execution lasts a symbolic real duration in (0, test_timeout); event order decided by the solver, long executions first"}),
         plan("G1 per-worker scope with retries, own pools symbolic", trav.menu("G1", params={"pool_scope": "own shared", "max_tries": "2"}, label="G1-ownshared-tries2"), m, K=1, statuses=["PASS"], pool_bits="all", pool_states=["customize", "on_customize"], pool_fixed={"install": ["own", "shared"]}),
     ]
     if tier == "thorough":
